@@ -48,7 +48,7 @@ Print Assumptions C20_enum_explicit.
 Theorem C20_gap_is_address : forall R pre g n r post acc0 accp,
   is_gap g n -> foldM (push_pending R) pre acc0 = Ok accp ->
   same_result (foldM (push_pending R) (pre ++ (None, g) :: (None, r) :: post) acc0)
-              (foldM (push_pending R) (pre ++ (Some (snd accp + n), r) :: post) acc0).
+              (foldM (push_pending R) (pre ++ (Some (snd accp + n)%N, r) :: post) acc0).
 Proof. exact gap_is_address_fold. Qed.
 Print Assumptions C20_gap_is_address.
 
